@@ -64,10 +64,10 @@ theorem walkRequested_spec (c : Cfg) (hb : Benign c) (f : Faults) (root : Node) 
         simp only [] at he1 hadv1
         subst he1
         simp only []
-        have hl2 := handleLeaf_benign c hb f [] s1 ⟨p, k, sz, []⟩ hadv1.cancelled
+        have hl2 := handleLeaf_benign c hb f [] s1 ⟨p, statKind k, sz, []⟩ hadv1.cancelled
           (fun _ => by rw [hadv1.gis, hi.gis]; rfl)
         simp only [] at hl2
-        generalize handleLeaf c f s1 p k sz = y at hl2 ⊢
+        generalize handleLeaf c f s1 p (statKind k) sz = y at hl2 ⊢
         obtain ⟨s2, e2⟩ := y
         obtain ⟨he2, hadv2⟩ := hl2
         simp only [] at he2 hadv2
@@ -204,9 +204,9 @@ theorem walkRequested_stack (c : Cfg) (hx : NoExtractorPanic c) (f : Faults) (ro
       | some e => exact ⟨h1.2.trans hd, by intro h; simp at h2; exact h2 h⟩
       | none =>
         simp only []
-        have := handleLeaf_same c hx f s1 p k sz
+        have := handleLeaf_same c hx f s1 p (statKind k) sz
         refine ⟨(this.1.2.trans h1.2).trans hd, ?_⟩
-        generalize handleLeaf c f s1 p k sz = r2 at this ⊢
+        generalize handleLeaf c f s1 p (statKind k) sz = r2 at this ⊢
         obtain ⟨s2, e2⟩ := r2
         cases e2 with
         | none => simp
